@@ -433,6 +433,38 @@ def run(ctx):
               trivial=True)
 
     ini_ = meths.get('__init__')
+    # ---- R12r: rendered argument text is not re-cased
+    ctx.rule('R12r', 'no replacement of the default text tables applies a case mapping (upper / lower / title / capitalize / '
+                     'swapcase) to text rendered from an argument: a formula inside that argument has then passed the math_mode '
+                     'gate (verbatim: its source, with-delimiters: source between delimiters) and is altered afterwards', 0)
+    dsm = repo.mod('pylatexenc.latex2text._defaultspecs')
+    n_cm = 0
+    for c_ in ast.walk(dsm.tree):
+        if isinstance(c_, ast.Call) and isinstance(c_.func, ast.Attribute) and c_.func.attr in (
+                'upper', 'lower', 'title', 'capitalize', 'swapcase', 'casefold') and not c_.args and any(
+                    isinstance(x_, ast.Call) and call_name(x_).endswith('_to_text') for x_ in ast.walk(c_.func.value)):
+            n_cm += 1
+            # which macro: the first string of the enclosing table entry
+            ent = None
+            for p_ in parents(c_):
+                if isinstance(p_, (ast.Tuple, ast.Call)) and not ent:
+                    elts = p_.elts if isinstance(p_, ast.Tuple) else p_.args
+                    if elts and isinstance(elts[0], ast.Constant) and isinstance(elts[0].value, str):
+                        ent = elts[0].value
+            # only where the walker gives the macro the argument that is rendered (otherwise nothing is rendered)
+            ks_ = [x_.args[1].value for x_ in ast.walk(c_.func.value) if isinstance(x_, ast.Call)
+                   and call_name(x_) == 'node_arg_to_text' and len(x_.args) >= 2 and isinstance(x_.args[1], ast.Constant)]
+            wspec_ = tables.WalkerTable(repo).macros.get(ent or '')
+            if ks_ and (wspec_ is None or not wspec_['args'] or max(ks_) >= len(wspec_['args'])):
+                ctx.holds('R12r', dsm, c_, '\\%s: the walker declares no argument %s, nothing is rendered there' % (ent, ks_),
+                          construct='\\%s: .%s() on rendered text' % (ent or '?', c_.func.attr), trivial=True)
+                continue
+            ctx.refuted('R12r', dsm, c_, 'the replacement of \\%s renders its argument and applies .%s() to the result: a '
+                        'formula in the argument is re-cased too -- with math_mode=\'verbatim\' '
+                        '`\\%s{Energy $e=mc^2$}` gives `$E=MC^2$`, not the source of the formula'
+                        % (ent or '?', c_.func.attr, ent or 'section'), construct='\\%s: .%s() on rendered text' % (ent or '?', c_.func.attr))
+    ctx.holds('R12r', dsm, None, '%d case mapping(s) on rendered argument text' % n_cm, construct='case mapping scan', trivial=True)
+
     # ---- R12q: the legacy dictionaries default to the default dictionaries
     ctx.rule('R12q', 'LatexNodes2Text(macro_dict=.. / env_dict=..): the dictionary that is NOT given is the corresponding default '
                      'dictionary (`flags.pop(name, default_<name>)`): with an empty one instead, the math environments have no '
